@@ -15,7 +15,9 @@ pub struct C16;
 pub struct Case {
     /// 0: several completions that each would open the breaker;
     /// 1: several requests arriving after the retry timeout;
-    /// 2: a probe completion racing with a new request and a stale completion
+    /// 2: a probe completion racing with a new request and a stale completion;
+    /// 3: a probe that another rule (isolation) rejects - its roll-back to Open - racing with a stale completion
+    ///    (and, with 3 threads, one more request)
     pub scenario: u8,
     /// 0 error count, 1 error ratio, 2 slow request ratio
     pub strategy: u8,
@@ -27,14 +29,19 @@ pub struct Case {
 }
 
 pub fn decode(u: &mut Bytes) -> Case {
-    Case {
+    let mut c = Case {
         scenario: u.choice(3) as u8,
         strategy: u.choice(3) as u8,
         nthreads: 2 + u.choice(2),
         probe_fails: u.bool(),
         stale_fails: u.bool(),
         schedule: decode_schedule(u, 5, 160),
+    };
+    // added later (drawn from the tail, so that committed replays keep their meaning)
+    if u.tail_choice(4) == 3 {
+        c.scenario = 3;
     }
+    c
 }
 
 struct Rec(Mutex<Vec<(State, State)>>);
@@ -118,6 +125,34 @@ pub fn execute(case: &Case, schedule: &[(u32, u8)], bytes_hex: &str) -> Result<s
                 }));
             }
         }
+        3 => {
+            // a stale entry admitted while Closed, breaker tripped by another, retry timeout over; an isolation rule
+            // (threshold 1, loaded now) rejects the next request while the stale entry is in flight: the breaker lets it
+            // through as its probe, the entry ends up blocked, and its exit rolls the breaker back to Open - unless the
+            // stale completion has decided the probe phase in between
+            let stale = build(Req::new(&res, 1)).map_err(|m| ("setup".to_string(), m))?;
+            let trip = build(Req::new(&res, 1)).map_err(|m| ("setup".to_string(), m))?;
+            clock::advance_ms(100);
+            complete(&trip, true);
+            if breaker.current_state() != State::Open {
+                return Err(("setup".into(), format!("breaker did not open in setup: {:?}", breaker.current_state())));
+            }
+            clock::advance_ms(1000);
+            sentinel_core::isolation::load_rules(vec![Arc::new(sentinel_core::isolation::Rule { resource: res.clone(), threshold: 1, ..Default::default() })]);
+            initial_state = State::Open;
+            let sf = case.stale_fails || slow;
+            for i in 0..(case.nthreads - 1) {
+                let res = res.clone();
+                let admitted = admitted.clone();
+                bodies.push(Box::new(move || {
+                    if let Ok(e) = build(Req::new(&res, 1)) {
+                        admitted.lock().unwrap().push(i);
+                        std::mem::forget(e);
+                    }
+                }));
+            }
+            bodies.push(Box::new(move || complete(&stale, sf)));
+        }
         _ => {
             // a stale entry admitted while Closed, breaker tripped by another, probe admitted; then race
             let stale = build(Req::new(&res, 1)).map_err(|m| ("setup".to_string(), m))?;
@@ -186,6 +221,14 @@ pub fn execute(case: &Case, schedule: &[(u32, u8)], bytes_hex: &str) -> Result<s
                 return Err(("probe-not-exactly-one".into(), format!("{} requests after the retry timeout: {} admitted, transitions {:?} (schedule {:?})", case.nthreads, admitted_n, log, schedule)));
             }
         }
+        3 => {
+            // a request that got through is a probe (one per Open -> Half-Open) unless the breaker closed in between
+            let closed = log.iter().any(|t| t.1 == State::Closed);
+            let probes = log.iter().filter(|t| **t == (State::Open, State::HalfOpen)).count();
+            if !closed && admitted_n > probes {
+                return Err(("more-admissions-than-probes".into(), format!("{} requests were admitted although the breaker never closed and only {} probe phases began: transitions {:?} (schedule {:?})", admitted_n, probes, log, schedule)));
+            }
+        }
         _ => {
             // the new request may pass only if the breaker was closed by then
             let closed = log.iter().any(|t| t.1 == State::Closed);
@@ -203,7 +246,7 @@ fn run_case(case: Case, hex: &str, cfg: &RunCfg) -> Verdict {
         Err((clause, detail)) => Verdict::Fail(Failure { clause: clause.clone(), key: format!("C16|scenario{}|{}", case.scenario, clause), detail, decoded: serde_json::to_value(&case).unwrap() }),
         Ok(info) => Verdict::Pass(CaseReport {
             nontrivial: info.effective_preemptions > 0,
-            classes: vec![["several-opening-completions", "several-requests-after-retry-timeout", "probe-completion-vs-request-vs-stale-completion"][case.scenario as usize], ["error-count", "error-ratio", "slow-ratio"][case.strategy as usize]],
+            classes: vec![["several-opening-completions", "several-requests-after-retry-timeout", "probe-completion-vs-request-vs-stale-completion", "probe-rejected-by-isolation-vs-stale-completion"][case.scenario as usize], ["error-count", "error-ratio", "slow-ratio"][case.strategy as usize]],
             digest: digest_of(&case),
             decoded: if cfg.want_decoded { serde_json::to_value(&case).ok() } else { None },
             known_hits: vec![],
@@ -226,7 +269,7 @@ impl Property for C16 {
         true
     }
     fn rule(&self) -> String {
-        "bytes -> scenario around one transition of one breaker (several completions that each would open it; several requests right after the retry timeout; a probe completion racing with a new request and a stale completion), strategy (error count / error ratio / slow ratio), 2-3 threads, probe and stale outcomes, schedule of up to 5 preemptions; plus (coverage.extra) exhaustive enumeration of all schedules with <= k preemptions (k = 2 quick, 3 thorough) of the 2-thread variant of each scenario x strategy; oracle per execution: the listener log of the phase is a path of the state machine starting at the state before the phase, current_state() equals its end, exactly one Closed->Open for several opening completions, exactly one admitted request and one Open->Half-Open for several requests after the timeout, no admission during a probe phase unless the breaker closed; non-trivial = a preemption actually switched threads; distinct = distinct (scenario, schedule)".into()
+        "bytes -> scenario around one transition of one breaker (several completions that each would open it; several requests right after the retry timeout; a probe completion racing with a new request and a stale completion; a probe that an isolation rule rejects, i.e. its roll-back to Open, racing with a stale completion and one more request), strategy (error count / error ratio / slow ratio), 2-3 threads, probe and stale outcomes, schedule of up to 5 preemptions; plus (coverage.extra) exhaustive enumeration of all schedules with <= k preemptions (k = 2 quick, 3 thorough) of the 2-thread variant of each scenario x strategy; oracle per execution: the listener log of the phase is a path of the state machine starting at the state before the phase, current_state() equals its end, exactly one Closed->Open for several opening completions, exactly one admitted request and one Open->Half-Open for several requests after the timeout, no admission during a probe phase unless the breaker closed, no more admissions than probe phases around a rejected probe unless it closed; non-trivial = a preemption actually switched threads; distinct = distinct (scenario, schedule)".into()
     }
     fn assumptions(&self) -> Vec<String> {
         vec!["as C14 (cooperative scheduler over std sync operations); virtual clock fixed during the concurrent phase".into()]
@@ -246,10 +289,10 @@ impl Property for C16 {
         let mut runs = 0u64;
         let mut complete_all = true;
         let mut scen = 0;
-        for scenario in 0..3u8 {
+        for scenario in 0..4u8 {
             for strategy in 0..3u8 {
                 for (pf, sf) in [(false, false), (true, false), (false, true)] {
-                    if scenario != 2 && (pf || sf) {
+                    if (scenario < 2 && (pf || sf)) || (scenario == 3 && pf) {
                         continue;
                     }
                     let case = Case { scenario, strategy, nthreads: if scenario == 2 { 3 } else { 2 }, probe_fails: pf, stale_fails: sf, schedule: vec![] };
